@@ -260,7 +260,10 @@ SUBSETS = {
     "full21": list(R.VOIGT_PAIRS),
 }
 ORDERS = ["voigt", "reversed", "shipped"]
-NAMINGS = ["c11", "C11", "c_11", "C1111", "c1111swap", "c21"]
+NAMINGS = ["c11", "C11", "c_11", "C1111", "c1111swap", "c21",
+           # "whatever the prefix": prefixes of more than one character, with and without separators
+           "cij11", "Cij_11", "elast11", "C^st_11", "Cijkl1111"]
+PREFIXES = {"cij11": "cij", "Cij_11": "Cij_", "elast11": "elast", "C^st_11": "C^st_"}
 STATIC_NV = [1, 2, 9]
 STATIC_LAYOUTS = ["plain", "padded", "crlf-tabs"]
 
@@ -290,6 +293,10 @@ def col_name(pair, naming):
         return R.name_4digit(pair, "c", 1)
     if naming == "c21":
         return f"c{pair[1]}{pair[0]}"
+    if naming in PREFIXES:
+        return R.name_2digit(pair, PREFIXES[naming])
+    if naming == "Cijkl1111":
+        return R.name_4digit(pair, "Cijkl", 0)
     raise HarnessError(naming)
 
 
@@ -413,6 +420,9 @@ SYSTEM_NAMES = ["triclinic", "monoclinic", "orthorhombic", "tetragonal7", "tetra
 NUMSTYLES = ["float", "int", "intV", "longdec"]
 GIVEN = ["independent", "all-nonzero"]
 VALUEKINDS = ["consistent", "within-tolerance"]
+TINY = [None, "0.00003", "0.0000005"]        # magnitude of the weak component (index 0: none)
+TINY_PAIR = {"triclinic": (4, 6), "monoclinic": (4, 6), "orthorhombic": (6, 6), "tetragonal7": (1, 6), "tetragonal6": (6, 6),
+             "trigonal7": (1, 5), "trigonal6": (1, 4), "hexagonal": (4, 4), "cubic": (4, 4)}   # an independent component each
 OVERDET_GIVEN = ["one-dependent", "all-nonzero"]      # "independent" leaves nothing that could disagree
 OVERDET_NUMSTYLES = ["float", "longdec"]              # integer-looking columns cannot carry a 0.04 disagreement
 
@@ -431,7 +441,7 @@ def _dec_text(x: Decimal) -> str:
 
 
 def fill_table(system, numstyle, given, case_letter, order, nv, lattice, layout, vref="586.01996000",
-               cellmass="200.782", variant=0, valuekind="consistent", lathdr=0):
+               cellmass="200.782", variant=0, valuekind="consistent", lathdr=0, tiny=0):
     """(text, info): a table that is sufficient for `system` and consistent with it.
     `variant` k shifts every number (components, volumes, lattice parameters) so that two tables differ in every slot.
     info: volumes (Decimal), full: per volume {pair: Decimal} of all 21 components as they must come
@@ -448,7 +458,12 @@ def fill_table(system, numstyle, given, case_letter, order, nv, lattice, layout,
                 Decimal("0.71") * variant
             if p in ((1, 4), (2, 5), (3, 6), (4, 6), (1, 6)):
                 x = -x
-            if numstyle == "int":
+            if tiny and p == TINY_PAIR[system]:
+                # a weak component: non-zero at every volume, far above the drop tolerance of the command (1e-8),
+                # far below everything else in the table
+                t = Decimal(TINY[tiny])
+                x = (t + t / 50 * iv) * (-1 if x < 0 else 1)
+            elif numstyle == "int":
                 x = x.quantize(Decimal("1"))
             elif numstyle == "longdec":
                 x = (x + Decimal("0.000000123") * (ip + 1)).quantize(Decimal("1e-9"))
@@ -643,7 +658,7 @@ def _fill_case(case):
     numstyle = case["numstyle"]
     vkind = case.get("valuekind", "consistent")
     text, info = fill_table(system, numstyle, case["given"], case["letter"], case["order"], case["nv"],
-                            case["lattice"], case["layout"], valuekind=vkind, lathdr=case.get("lathdr", 0))
+                            case["lattice"], case["layout"], valuekind=vkind, lathdr=case.get("lathdr", 0), tiny=case.get("tiny", 0))
     in_parse = R.parse_static(text)
     viol = []
     d = tempfile.mkdtemp(dir="/dev/shm", prefix="c17f-")
@@ -733,7 +748,7 @@ def _fill_case(case):
                     v2.append(V("c17:fill-chain:keys", f"second fill ({s2}) changed the component set {sorted(present)} -> {sorted(op2['keys'])}"))
                 viol.extend(v2)
                 chain_done.append((s2, out2 == out1))
-        outcome = f"fill/{system}/{numstyle}/{vkind}/" + ("digits-dropped" if lost else "exact") + \
+        outcome = f"fill/{system}/{numstyle}/{vkind}/" + (f"tiny{TINY[case['tiny']]}/" if case.get("tiny") else "") + ("digits-dropped" if lost else "exact") + \
                   ("/chain-bytes-identical" if chain_done and all(b for _, b in chain_done) else
                    "/chain-reformatted" if chain_done else "")
     finally:
@@ -743,7 +758,7 @@ def _fill_case(case):
 
 def _fill_key(case):
     return "fi" + "/".join(str(case.get(k, "consistent")) for k in ("system", "numstyle", "given", "valuekind", "letter", "order", "nv",
-                                                                     "lattice", "layout", "lathdr"))
+                                                                     "lattice", "layout", "lathdr", "tiny"))
 
 
 def chain_ops(system):
@@ -1195,6 +1210,16 @@ def fill_cases(quick):
                                     "letter": cfg["letter"], "order": cfg["order"], "nv": cfg["nv"], "layout": cfg["layout"],
                                     "lathdr": cfg["lathdr"],
                                     "chain": ops if (not quick or k == 0) else ops[:1]})
+        # value magnitude: one independent component is weak (3e-5 / 5e-7) at every volume.  It is tabulated, it does not
+        # vanish, so it belongs to the output and to the symmetry-filled parse alike.
+        for tiny in range(1, len(TINY)):
+            for g in GIVEN:
+                for cfg, k in minors:
+                    if cfg["lathdr"] or (quick and k and cfg["nv"] == FILL_MINOR["nv"][0]):
+                        continue        # quick: default presentation and the n_V deviations ("at every volume")
+                    out.append({"kind": "fill", "system": s, "numstyle": "float", "given": g, "valuekind": "consistent", "lattice": 1,
+                                "letter": cfg["letter"], "order": cfg["order"], "nv": cfg["nv"], "layout": cfg["layout"], "lathdr": 0,
+                                "tiny": tiny, "chain": ops if not quick else ops[:1]})
         # value kind "within-tolerance": tabulated components over-determine the relations and disagree slightly.
         # Only where something can disagree: a system with dependent components, and a dependent one tabulated.
         # No second fill: the compromise of a slightly inconsistent table is not itself consistent, so fill is not
@@ -1222,11 +1247,12 @@ def explore(ctx):
         "mode A. phonon: 27 shapes (n_V x n_q x n_p in {1,2,12}x{1,2,10}x{3,6,60}) x 4 value "
         "families (tiny: 0, +-k*1e-6 and 3e-7 below the print precision; unit: +-1.5 outwards; large: +-99999.123456 "
         "inwards; physical: descending V, negative E, negative acoustic frequencies at Gamma) x 4 (nm,na) x 2 comment "
-        "lines, every slot of a data set holding a distinct number. static: 4 component subsets x 3 column orders x 6 "
-        "column spellings x lattice block absent/present x n_V in {1,2,9} x 3 shipped presentations (blanks, padded, "
+        "lines, every slot of a data set holding a distinct number. static: 4 component subsets x 3 column orders x 11 "
+        "column spellings (c11, C11, c_11, 4-digit, swapped 4-digit, c21, and the prefixes cij, Cij_, elast, C^st_, Cijkl) x lattice block absent/present x n_V in {1,2,9} x 3 shipped presentations (blanks, padded, "
         "CRLF+tabs), every slot distinct; plus, with a lattice block, 4 further spellings of its one-line header (upper case, "
         "`a b c`, a `#` comment, a sentence) x subsets x n_V x presentations. fill: 9 systems x 4 number styles x {independent, all non-vanishing} "
-        "components given x lattice block (full product), plus value kind `within-tolerance` (tabulated dependent components "
+        "components given x lattice block (full product), plus a weak independent component (3e-5 / 5e-7 at every volume) x 9 "
+        "systems x given, plus value kind `within-tolerance` (tabulated dependent components "
         "disagree with their relation by 0.04..0.08, residual <= half the tolerance) x 6 systems with dependent components x "
         "{float, 9-decimal} x {independent + one dependent, all non-vanishing} given x lattice block; each x deviation lattice over presentation {c/C, column order, n_V in "
         "{4,1,9}, layout in {plain, CRLF+tabs, padded}, lattice-header spelling (5, only with a block, float/independent)}: bound 1 in quick, full product in thorough; mode B: histories of "
@@ -1293,7 +1319,8 @@ def explore(ctx):
         "static": {"lattice_header_spellings": R.LATTICE_HEADERS, "subsets": {k: len(v) for k, v in SUBSETS.items()}, "orders": len(ORDERS), "spellings": NAMINGS,
                    "lattice": 2, "n_V": STATIC_NV, "layouts": STATIC_LAYOUTS, "cases": len(st)},
         "fill": {"systems": len(SYSTEM_NAMES), "number_styles": NUMSTYLES, "given": GIVEN, "lattice": 2,
-                 "value_kinds": VALUEKINDS, "within_tolerance": {"systems": [s for s in SYSTEM_NAMES if R.SYSTEMS[s]["dependent"]],
+                 "value_kinds": VALUEKINDS, "weak_component": {"magnitudes": TINY[1:], "pair": {k: list(v) for k, v in TINY_PAIR.items()},
+                                                               "cases": sum(1 for c in fi if c.get("tiny"))}, "within_tolerance": {"systems": [s for s in SYSTEM_NAMES if R.SYSTEMS[s]["dependent"]],
                                                                  "number_styles": OVERDET_NUMSTYLES, "given": OVERDET_GIVEN,
                                                                  "cases": sum(1 for c in fi if c["valuekind"] == "within-tolerance")},
                  "presentation_lattice": {"dims": {k: v for k, v in FILL_MINOR.items()}, "bound": 1 if ctx.quick else len(FILL_MINOR),
